@@ -318,8 +318,10 @@ impl VisitMut for Rw {
         if let Some(allowed) = self.timed_awaits.clone() {
             let mut out: Vec<Stmt> = Vec::new();
             for st in b.stmts.drain(..) {
-                if stmt_has_untimed_await(&st, &allowed) {
-                    out.push(parse_quote!(vx_forbidden_await!();));
+                match stmt_has_untimed_await(&st, &allowed) {
+                    2 => out.push(parse_quote!(vx_forbidden_await!();)),
+                    1 => out.push(parse_quote!(vx_forbidden_await_soft!();)),
+                    _ => {}
                 }
                 out.push(st);
             }
@@ -1327,14 +1329,22 @@ fn is_timeout_call(e: &Expr) -> bool {
 }
 
 /// does the statement itself (nested blocks are visited on their own) wait for anything that is neither `timeout(d, f)` nor
-/// `.<allowed>()`?
-fn stmt_has_untimed_await(st: &Stmt, allowed: &[String]) -> bool {
-    struct F<'g>(bool, &'g [String]);
+/// `.<allowed>()`?  2 = yes, for a primitive wait (a method chain on a field or local such as `x.lock().await.send(f).await`, or a
+/// value such as `rx.await`): the monitor's obligation is absolute.  1 = yes, but only for direct calls `f(..)` / `self.m(..)` /
+/// `T::f(..)`: whether such a call waits outside a time-out depends on the callee, so the obligation is an ordinary one (not
+/// decided when the callee has no contract).  0 = no.
+fn stmt_has_untimed_await(st: &Stmt, allowed: &[String]) -> u8 {
+    struct F<'g>(u8, &'g [String]);
     impl<'a, 'g> syn::visit::Visit<'a> for F<'g> {
         fn visit_expr_await(&mut self, a: &'a ExprAwait) {
             let ok = is_timeout_call(&a.base) || matches!(&*a.base, Expr::MethodCall(m) if m.args.is_empty() && self.1.iter().any(|x| m.method == x));
             if !ok {
-                self.0 = true;
+                let direct_call = match &*a.base {
+                    Expr::Call(c) => matches!(&*c.func, Expr::Path(_)),
+                    Expr::MethodCall(m) => matches!(&*m.receiver, Expr::Path(p) if p.path.is_ident("self")),
+                    _ => false,
+                };
+                self.0 = self.0.max(if direct_call { 1 } else { 2 });
             }
             syn::visit::visit_expr_await(self, a);
         }
@@ -1342,7 +1352,7 @@ fn stmt_has_untimed_await(st: &Stmt, allowed: &[String]) -> bool {
         fn visit_expr_async(&mut self, _b: &'a ExprAsync) {}
         fn visit_expr_closure(&mut self, _b: &'a ExprClosure) {}
     }
-    let mut f = F(false, allowed);
+    let mut f = F(0, allowed);
     syn::visit::Visit::visit_stmt(&mut f, st);
     f.0
 }
